@@ -83,6 +83,7 @@ Outcome(fres, poisonedAtAcquire) == IF poisonedAtAcquire /\ PoisonBehaviour = "e
             poisoned = FALSE,     \* the mutex's poison flag
             cache = {},           \* zones whose TZif has been parsed and memoised
             failed = FALSE,       \* some call has already completed with an error or a panic
+            panicked = FALSE,     \* some call has panicked inside the provider (history variable)
             order = << >>;        \* history (KeepHist only): calls in lock-acquisition order with their outcomes
 
   \* last step of a call: count it, remember that a call failed, record the outcome, forget the locals
@@ -123,7 +124,7 @@ Outcome(fres, poisonedAtAcquire) == IF poisonedAtAcquire /\ PoisonBehaviour = "e
               finish(poisoned);
               goto Loop;
    Panic:     \* unwinding: MutexGuard::drop sees thread::panicking() and poisons the mutex
-              holder := None; poisoned := TRUE;
+              holder := None; poisoned := TRUE; panicked := TRUE;
               finish(TRUE);
               goto Loop;
    Fail:      finish(poisoned);
@@ -132,11 +133,11 @@ Outcome(fres, poisonedAtAcquire) == IF poisonedAtAcquire /\ PoisonBehaviour = "e
 }
  ***************************************************************************)
 \* BEGIN TRANSLATION
-VARIABLES pc, holder, poisoned, cache, failed, order, n, cl, res, lk, 
-          afterFail, slot
+VARIABLES pc, holder, poisoned, cache, failed, panicked, order, n, cl, res, 
+          lk, afterFail, slot
 
-vars == << pc, holder, poisoned, cache, failed, order, n, cl, res, lk, 
-           afterFail, slot >>
+vars == << pc, holder, poisoned, cache, failed, panicked, order, n, cl, res, 
+           lk, afterFail, slot >>
 
 ProcSet == (Threads)
 
@@ -145,6 +146,7 @@ Init == (* Global variables *)
         /\ poisoned = FALSE
         /\ cache = {}
         /\ failed = FALSE
+        /\ panicked = FALSE
         /\ order = << >>
         (* Process t *)
         /\ n = [self \in Threads |-> 0]
@@ -159,8 +161,8 @@ Loop(self) == /\ pc[self] = "Loop"
               /\ IF n[self] < NCalls
                     THEN /\ pc' = [pc EXCEPT ![self] = "Acquire"]
                     ELSE /\ pc' = [pc EXCEPT ![self] = "Done"]
-              /\ UNCHANGED << holder, poisoned, cache, failed, order, n, cl, 
-                              res, lk, afterFail, slot >>
+              /\ UNCHANGED << holder, poisoned, cache, failed, panicked, order, 
+                              n, cl, res, lk, afterFail, slot >>
 
 Acquire(self) == /\ pc[self] = "Acquire"
                  /\ holder = None
@@ -179,7 +181,7 @@ Acquire(self) == /\ pc[self] = "Acquire"
                        ELSE /\ holder' = self
                             /\ pc' = [pc EXCEPT ![self] = "Lookup"]
                             /\ res' = res
-                 /\ UNCHANGED << poisoned, cache, failed, n, lk >>
+                 /\ UNCHANGED << poisoned, cache, failed, panicked, n, lk >>
 
 Lookup(self) == /\ pc[self] = "Lookup"
                 /\ lk' = [lk EXCEPT ![self] = LookupKind(cache, cl[self].zone, Zones)]
@@ -189,8 +191,8 @@ Lookup(self) == /\ pc[self] = "Lookup"
                            /\ pc' = [pc EXCEPT ![self] = "Release"]
                       ELSE /\ pc' = [pc EXCEPT ![self] = "Compute"]
                            /\ res' = res
-                /\ UNCHANGED << holder, poisoned, failed, order, n, cl, 
-                                afterFail, slot >>
+                /\ UNCHANGED << holder, poisoned, failed, panicked, order, n, 
+                                cl, afterFail, slot >>
 
 Compute(self) == /\ pc[self] = "Compute"
                  /\ IF cl[self].kind = "panic"
@@ -200,8 +202,8 @@ Compute(self) == /\ pc[self] = "Compute"
                                   THEN /\ res' = [res EXCEPT ![self] = RangeErr]
                                   ELSE /\ res' = [res EXCEPT ![self] = OkVal(cl[self].zone)]
                             /\ pc' = [pc EXCEPT ![self] = "Release"]
-                 /\ UNCHANGED << holder, poisoned, cache, failed, order, n, cl, 
-                                 lk, afterFail, slot >>
+                 /\ UNCHANGED << holder, poisoned, cache, failed, panicked, 
+                                 order, n, cl, lk, afterFail, slot >>
 
 Release(self) == /\ pc[self] = "Release"
                  /\ holder' = None
@@ -217,11 +219,12 @@ Release(self) == /\ pc[self] = "Release"
                  /\ afterFail' = [afterFail EXCEPT ![self] = FALSE]
                  /\ slot' = [slot EXCEPT ![self] = 0]
                  /\ pc' = [pc EXCEPT ![self] = "Loop"]
-                 /\ UNCHANGED << poisoned, cache >>
+                 /\ UNCHANGED << poisoned, cache, panicked >>
 
 Panic(self) == /\ pc[self] = "Panic"
                /\ holder' = None
                /\ poisoned' = TRUE
+               /\ panicked' = TRUE
                /\ failed' = (failed \/ Failed(res[self]))
                /\ n' = [n EXCEPT ![self] = n[self] + 1]
                /\ IF KeepHist
@@ -249,7 +252,7 @@ Fail(self) == /\ pc[self] = "Fail"
               /\ afterFail' = [afterFail EXCEPT ![self] = FALSE]
               /\ slot' = [slot EXCEPT ![self] = 0]
               /\ pc' = [pc EXCEPT ![self] = "Loop"]
-              /\ UNCHANGED << holder, poisoned, cache >>
+              /\ UNCHANGED << holder, poisoned, cache, panicked >>
 
 t(self) == Loop(self) \/ Acquire(self) \/ Lookup(self) \/ Compute(self)
               \/ Release(self) \/ Panic(self) \/ Fail(self)
@@ -294,7 +297,7 @@ LinearizableUnlessPoisoned ==
 CacheIsMemo == cache \subseteq Zones /\ BadZone \notin cache
 
 \* errors do not poison: the flag is set only by a panic under the lock
-PoisonOnlyByPanic == poisoned => failed
+PoisonOnlyByPanic == poisoned => panicked
 
 AllDone == \A th \in Threads : pc[th] = "Done"
 \* Termination (defined by the translation): <>(AllDone), under weak fairness of every thread.
